@@ -781,6 +781,37 @@ def r12_13(ctx, fx):
     ctx.floor(rid, n, 5 * 152, "abstract states interpreted")
 
 
+def r12_14(ctx, fx):
+    rid = "R12.14"
+    ctx.rule(rid, "the two overloads of an interval operation report the same kind of result: x.op_assign(y) computes x op y and x.op_assign(a, b) computes a op b; both end by storing the two bounds, and the I_Result they return is built the same way (combine(rl, ru), or I_ANY where the bounds are stored without looking at the outcome). A constant that claims more in one overload (I_NOT_EMPTY after an intersection, which check_empty() then trusts) is a claim nothing on the path established")
+    by = {}
+    for f in fx.functions:
+        if f.flag("pattern") and "Interval_inlines" in f.file and f.clsn == "Interval" and f.name.endswith("_assign") and len(f.params) in (1, 2):
+            by.setdefault((f.name, len(f.params)), f)
+    n = 0
+    for (name, k), f1 in sorted(by.items()):
+        if k != 1 or (name, 2) not in by:
+            continue
+        f2 = by[(name, 2)]
+
+        def last_return(f):
+            rets = [r for r in f.walk() if r["k"] == "return"]
+            r = max(rets, key=lambda r: r.get("l", 0))
+            e = f.deref(r["c"][0])
+            t = f.text(e).replace(" ", "")
+            t = re.sub(r"\(.*\)$", "(..)", t) if e["k"] in ("call", "mcall") else t
+            return r, t
+        r1, t1 = last_return(f1)
+        r2, t2 = last_return(f2)
+        n += 1
+        inst = "Interval::%s (one operand / two operands)" % name
+        if t1 == t2:
+            ctx.ok(rid, inst, f2.where(r2))
+        else:
+            ctx.violation(rid, inst, f2.where(r2), "the one-operand overload ends in `return %s`, the two-operand overload in `return %s`" % (t1, t2))
+    ctx.floor(rid, n, 3, "operations with a one-operand and a two-operand overload")
+
+
 def run(ctx):
     ctx.explanation = ("C12 side discipline of the interval layer on the template patterns of Interval_* and Boundary_defs.hh: consistent (side, value, info) triples, "
                        "direction derived from the side of the bound written, results combined; decides the discipline, not the sign case analysis of mul/div or linearisation")
@@ -800,6 +831,7 @@ def run(ctx):
     r12_11(ctx, fx)
     r12_12(ctx, fx)
     r12_13(ctx, fx)
+    r12_14(ctx, fx)
     from rules import idioms
     ctx.rule("R12.5", "copies agree: the per-format arms of the switches of the floating-point layer (compute_absolute_error caches one result per analysed format and reads the traits of that format) are copies of one another; in each arm the identifiers repeat exactly as in its siblings — the slot tested is the slot returned and the slot filled, and the three traits come from one struct")
     fxf = ctx.extract([F.driver_unit("all_headers.cc", file_re=r"(Float_(templates|inlines)|linearize|Linear_Form_templates|Interval_templates)\.hh")])
